@@ -63,8 +63,8 @@ def one_repo(name, prop=None):
     if a.returncode != 0:
         return name, prop, 'PATCH-DOES-NOT-APPLY ' + a.stdout
     try:
-        p = subprocess.run([os.path.join(V, 'check'), prop, '--tier', 'quick'], cwd=V, stdout=subprocess.PIPE, stderr=subprocess.STDOUT, text=True)
-        log = p.stdout
+        p = subprocess.run(['timeout', '2400', os.path.join(V, 'check'), prop, '--tier', 'quick'], cwd=V, stdout=subprocess.PIPE, stderr=subprocess.STDOUT, text=True)
+        log = p.stdout if p.returncode != 124 else 'CHECK-TIMEOUT'
     finally:
         subprocess.run(['git', '-C', '/repo', 'checkout', '--', '.'])
     return name, prop, log
@@ -92,6 +92,8 @@ def main():
         meta = json.load(open(os.path.join(V, 'seeded', name, 'meta.json')))
         if log.startswith('PATCH-DOES-NOT-APPLY'):
             outcome, caught = 'patch does not apply to the current tree', ''
+        elif log.startswith('CHECK-TIMEOUT') or log.rstrip().endswith('CHECK-TIMEOUT'):
+            outcome, caught = 'MISSED (the check did not finish within 40 minutes)', ''
         else:
             outcome, caught = parse(log, prop)
         res[name] = {'property': prop, 'needs': meta.get('what_it_needs_to_manifest', ''), 'outcome': outcome,
@@ -103,7 +105,7 @@ def main():
             res[name]['outcome'] += f'; ./check {extra}: {o2}'
             res[name]['caught_by'] += f'; {extra}: {c2}'
             print(name, extra, o2, '|', c2)
-    json.dump(res, open(rp, 'w'), indent=1)
+        json.dump(res, open(rp, 'w'), indent=1)
 
 
 if __name__ == '__main__':
